@@ -5,18 +5,24 @@ mod c03;
 mod c04;
 mod c05;
 mod c12;
+mod c16;
 mod c19;
 mod choice;
+mod corpus;
 mod engine;
 mod refdiff;
 mod refmap;
 mod refmvn;
 mod rng;
+mod sandbox;
 mod simdir;
 mod simio;
 mod simjar;
 
 use engine::{Engine, Opts, Tier};
+
+#[global_allocator]
+static ALLOC: sandbox::LimitAlloc = sandbox::LimitAlloc;
 
 // The two binary-crate modules a property anchors are compiled from /repo's working tree into the harness.
 // They name these items through `crate::`.
@@ -86,6 +92,12 @@ fn dispatch(a: &Args, digest_only: bool) -> i32 {
         "C04" => drive(&c04::C04, a, digest_only),
         "C05" => drive(&c05::C05, a, digest_only),
         "C12" => drive(&c12::C12, a, digest_only),
+        "C16" => {
+            if let Some(r) = &a.replay {
+                return c16::replay(r);
+            }
+            c16::run(&c16::Args16 { tier: a.tier, seed: seed(), workers: a.workers, evidence: a.evidence, digest_only, max_units: a.runs.map(|n| n as usize) })
+        }
         "C19" => drive(&c19::C19, a, digest_only),
         other => {
             eprintln!("harness error: no engine for {other}");
@@ -101,6 +113,11 @@ fn main() {
     let mut peek: Vec<String> = args.collect();
     if peek.is_empty() {
         usage();
+    }
+    match peek[0].as_str() {
+        "c16-child" => std::process::exit(c16::child_main(&peek[1..])),
+        "c16-one" => std::process::exit(c16::one_main(&peek[1..])),
+        _ => {}
     }
     let digest_only = peek[0] == "digest";
     if digest_only {
